@@ -6,6 +6,7 @@ import (
 	"runtime"
 	"runtime/debug"
 	"strconv"
+	"strings"
 	"sync"
 	"sync/atomic"
 	"time"
@@ -331,6 +332,18 @@ func (s *Sched) yield(t *thread, o *op) {
 	t.steps++
 	s.schedule(t)
 	t.pending = nil
+}
+
+// AccessPoint is a scheduling point followed by an access record of the happens-before monitor.
+func (s *Sched) AccessPoint(key string, write bool, where string) {
+	if _, t := current(); t != nil {
+		lbl := key
+		if i := strings.Index(lbl, "@"); i >= 0 {
+			lbl = lbl[:i] // object identities differ between executions; labels must not
+		}
+		s.yield(t, &op{kind: "access", label: "access " + lbl})
+		s.Access(t, key, write, where)
+	}
 }
 
 // Point is a plain scheduling point with a label (verifhook.Point, badger hook).
